@@ -178,7 +178,7 @@ theorem inv_step (f : Nat → Packed → Packed) (file0 : Packed) (s : St) (w : 
         rcases List.mem_append.mp hx with hx | hx
         · exact h.logged x hx
         · simp at hx; exact absurd hx hxw
-    · exact List.nodup_append.mpr ⟨h.nodup, List.nodup_singleton w, fun a ha b hb => by
+    · exact List.nodup_append.mpr ⟨h.nodup, (by simp), fun a ha b hb => by
         simp at hb; rw [hb]; intro heq; rw [heq] at ha; exact hnotin ha⟩
   | early snap => exact absurd hpc (h.noEarly w snap)
   | done => simpa using h
